@@ -8,14 +8,16 @@ import contextlib
 
 @contextlib.contextmanager
 def traced(events):
-    import cirbo.synthesis.generation.arithmetics.multiplication as M
+    import cirbo.synthesis.generation.arithmetics.multiplication as M1
+    import cirbo.synthesis.generation.arithmetics.square as M2
 
     saved = {}
 
     def wrap(name, mk):
-        if hasattr(M, name):
-            saved[name] = getattr(M, name)
-            setattr(M, name, mk(saved[name]))
+        for M in (M1, M2):          # the multipliers and the squarers place and compress their own bits
+            if hasattr(M, name):
+                saved[(M, name)] = getattr(M, name)
+                setattr(M, name, mk(saved[(M, name)]))
 
     def gate(orig):
         def f(circuit, left, right, operation):
@@ -87,5 +89,5 @@ def traced(events):
         wrap('add_sum_pow2_m1', sump)
         yield
     finally:
-        for n, o in saved.items():
+        for (M, n), o in saved.items():
             setattr(M, n, o)
